@@ -289,7 +289,7 @@ fn print_checks(ctx: &Ctx) {
 }
 
 pub fn run(ctx: &Ctx) {
-    ctx.set_rule("(a) generated programs (tape decoder, plus programs over objects with 8..16 keys built in shuffled insertion order with several simultaneous differences / type mismatches / missing keys, collect patterns and multi-fault destructuring) each run 5 times: twice in the base configuration (fresh hash seeds) and under 3 of 6 other configurations (cwd = script dir / parent / root / sub-directory, path relative / ./ / absolute / via .., environment empty / 150 variables / LANG, LC_ALL in {C, en_US, tr_TR} / RUST_BACKTRACE, stdin /dev/null / closed / pipe, stdout file / pipe, neighbouring files): stdout, status and stderr (echoed path normalised) must be byte-identical; (b) print(v) and print(print(v)) for every function-free value of the C10 pool (construction histories: literal, incremental insertion orders, spread / slice / concatenation / collected copies, aliases, shared children) and for values with one container at two depths, against an independent renderer. Non-trivial = (a) every case (5 runs), (b) depth >= 2 or a non-literal history; distinct = distinct programs");
+    ctx.set_rule("(a) generated programs (tape decoder, plus programs over objects with 8..16 keys built in shuffled insertion order with several simultaneous differences / type mismatches / missing keys, collect patterns and multi-fault destructuring) each run 5 times: twice in the base configuration (fresh hash seeds) and under 3 of 6 other configurations (cwd = script dir / parent / root / sub-directory, path relative / ./ / absolute / via .., environment empty / 150 variables / LANG, LC_ALL in {C, en_US, tr_TR} / RUST_BACKTRACE, stdin /dev/null / closed / pipe, stdout file / pipe, neighbouring files): stdout, status and stderr (echoed path normalised) must be byte-identical; (b) print(v) and print(print(v)) for every function-free value of the C10 pool (construction histories: literal, incremental insertion orders, spread / slice / concatenation / collected copies, aliases, shared children) and for values with one container at two depths, against an independent renderer; objects of up to 130 keys; programs failing with several equally eligible culprits; containers rendering to 0.3..8 KiB shared at several depths of one printed value. Non-trivial = (a) every case (5 runs), (b) depth >= 2 or a non-literal history; distinct = distinct programs");
     ctx.replay_corpus(Some(&custom));
     print_checks(ctx);
     let n = ctx.n(5_000, 60_000);
